@@ -48,9 +48,12 @@ func (b *Box) Clone() any {
 var ErrSentinel = errors.New("sentinel")
 
 // OwnErr is the error type returned by blocks with E=1/2.
-type OwnErr struct{ ID int }
+type OwnErr struct {
+	ID  int
+	Suf string // kind 6: "@<length of the globalStore log>", so that the same block reports another text each time it runs
+}
 
-func (e *OwnErr) Error() string { return "E" + strconv.Itoa(e.ID) }
+func (e *OwnErr) Error() string { return "E" + strconv.Itoa(e.ID) + e.Suf }
 
 // SliceErr is an error whose dynamic type is not comparable (user code may well return such a
 // value, e.g. a list of field errors): a runtime that compares Inner errors with == panics on it.
@@ -103,6 +106,8 @@ func (sp Spec) ErrKind(id, off int) int {
 		return 4
 	case 7:
 		return 5
+	case 8:
+		return 6
 	}
 	return 0
 }
@@ -454,6 +459,8 @@ func (sp Spec) fault(gs map[string]any, id, off int) error {
 			return f()
 		}
 		return errors.New(NestedErrText)
+	case 6:
+		return &OwnErr{ID: id, Suf: "@" + strconv.Itoa(len(glogOf(gs)))}
 	}
 	return nil
 }
